@@ -117,7 +117,7 @@ CHECKS = {
  "C18": dict(
    category="model_checking",
    technique="stateless exploration of thread interleavings on the real code under a cooperative scheduler (scheduling point at the entry of every library function that refers to a package-level variable, inserted mechanically in the build overlay), preemption-bounded DFS with replay; plus a deep fingerprint of all shared state before/after every execution and a separate free-running race-detector pass",
-   text="12 programs (slices of the eight C11 extension tables, C10 statement bodies, an API-coverage program, a mixed program). Quick: 5-row programs, 36 ordered pairs (self, successor, mixed), every schedule with <=1 preemption: 40k schedules, 86M scheduling points. Thorough: 24 programs of 10 rows, every program against itself, its three successors, the API program and the mixed program with <=1 preemption, and 2-row programs against themselves and the mixed program with <=2 preemptions. In every schedule both outputs (files and per-row verdicts) equal the sequential builds and the deep hash of everything reachable from the 95 package-level variables of the library is unchanged; every program is also built twice sequentially from a cold process and no build, the first included, may change the fingerprint. Evidence lists the exported entry points no program reaches. Free-running pass: all programs on 16 goroutines under -race, from a cold process and warm (640 builds quick), outputs compared with sequential builds.",
+   text="12 programs (slices of the eight C11 extension tables, C10 statement bodies, an API-coverage program, a mixed program). Quick: 5-row programs, 36 ordered pairs (self, successor, mixed), every schedule with <=1 preemption: 40k schedules, 86M scheduling points. Thorough: 24 programs of 5 rows (two slices per table), every program against itself, its three successors, the API program and the mixed program with <=1 preemption, and 1-row programs against themselves and the mixed program with <=2 preemptions; stage A and the race pass use the 10-row programs. In every schedule both outputs (files and per-row verdicts) equal the sequential builds and the deep hash of everything reachable from the 95 package-level variables of the library is unchanged; every program is also built twice sequentially from a cold process and no build, the first included, may change the fingerprint. Evidence lists the exported entry points no program reaches. Free-running pass: all programs on 16 goroutines under -race, from a cold process and warm (640 builds quick), outputs compared with sequential builds.",
    note="Trusted: interference needs state reachable from a package-level variable of the library (the list and the scheduling points are generated from /repo's syntax on every run); Go memory-model effects below function granularity are left to the race detector pass, which samples schedules.",
    design="§4 C18"),
  "C20": dict(
